@@ -193,6 +193,7 @@ VALUES = {  # label -> (value expression evaluated by the module's own construct
     "longa": (0.25, (Fraction(1, 4), 0, (1, 1))), "dotted-quarter": (4 / 1.5, (Fraction(4), 1, (1, 1))),
     "double-dotted-half": (2 / 1.75, (Fraction(2), 2, (1, 1))), "triplet-eighth": (12.0, (Fraction(8), 0, (3, 2))),
     "quintuplet-16th": (20.0, (Fraction(16), 0, (5, 4))), "sixteenth": (16, (Fraction(16), 0, (1, 1))),
+    "eighth": (8, (Fraction(8), 0, (1, 1))),
 }
 
 
@@ -281,8 +282,9 @@ def rule_ly_track(ctx):
     repo = ctx.repo
     f = repo.mod(LY).func("from_Track")
     rec = {LY + ".from_Bar": recorder("from_Bar", "BAR")}
-    keys = ["C", "C", "f#", "f#", "C"]
-    meters = [(4, 4), (3, 4), (3, 4), (4, 4), (4, 4)]
+    # includes relative keys (C / a, f# / A): same signature, different key -- the mode must still be written
+    keys = ["C", "C", "a", "f#", "f#", "A", "C"]
+    meters = [(4, 4), (3, 4), (3, 4), (3, 4), (4, 4), (4, 4), (4, 4)]
 
     def mk():
         trci = repo.mod(TR).cls("Track")
@@ -298,7 +300,7 @@ def rule_ly_track(ctx):
             lk, lm = k, m
         if flags != want:
             ok, why = False, "(showkey, showtime) per bar is %s, expected %s (shown exactly when the key / meter differs from the previous bar)" % (flags, want)
-    ctx.check(ok, R, "from_Track", f.where(), "lilypond.from_Track(<5 bars>)", why)
+    ctx.check(ok, R, "from_Track", f.where(), "lilypond.from_Track(<7 bars>)", why)
     fc = repo.mod(LY).func("from_Composition")
     rec = {LY + ".from_Track": recorder("from_Track", "TRACK")}
     comp = AObj(repo.mod(COMP).cls("Composition"), {"tracks": [Token("t0"), Token("t1")], "title": "My Title", "author": "Some Author", "subtitle": "Op. 1"}, name="comp")
@@ -362,6 +364,9 @@ def rule_xml_bar(ctx):
         "dots": [(["C"], "dotted-quarter"), (["D"], "double-dotted-half"), (None, "quarter")],
         "tuplets": [(["C"], "triplet-eighth"), (["D", "F"], "triplet-eighth"), (None, "triplet-eighth"), (["E"], "quarter")],
         "rests": [(None, "quarter"), ([], "quarter"), (["C"], "sixteenth")],
+        # denominators 3, 2 and 5 of a quarter note: divisions must be a common multiple, not the largest
+        "mixed-subdivisions": [(["C"], "triplet-eighth"), (["D"], "eighth"), (["E"], "quintuplet-16th"), (None, "dotted-quarter")],
+        "coarse-then-fine": [(["C"], "eighth"), (["D"], "triplet-eighth")],
         "empty": [],
     }
     for label, entries in shapes.items():
@@ -414,6 +419,8 @@ def rule_xml_bar(ctx):
                             dur = None
                         if got_ratio != ratio:
                             ok, why = False, "tuplet ratio %s, expected %s" % (got_ratio, ratio)
+                        elif dur is not None and dur.denominator != 1:
+                            ok, why = False, "duration %s is not a whole number of divisions" % dur
                         elif dur is None or dur / div != qlen:
                             ok, why = False, ("duration %s / divisions %s = %s quarter notes, the entry lasts %s (dots and tuplet ratio must enter the duration)"
                                               % (dur, div, (dur / div) if dur is not None else None, qlen))
